@@ -540,7 +540,7 @@ func init() {
 			"deposit batches: genuine ones and single items under 20 mutations (header of another height / changed / forged merkle root / wrong length / missing, proof truncated / extended / bit-flipped, position +1 / aliased by k*2^depth, other output, EVM address, key, version, changed / unmined / undersized tx, nil key), replays of credited deposits, duplicates inside a batch, unvoted blocks, coinbase deposits under position 0 and aliased positions before and after 100 voted blocks; " +
 			"oracle from the generator's ground truth on every accepted batch, plus value/tax/target/at-most-once checks on the deposit system txs the execution layer receives and Query/HasDeposited at the end. Non-trivial = every judged batch; distinct = (kind, size, verdict).",
 		Assume: []string{"the claimed position itself is not judged here (C04)", "values < 2^63"},
-		Cases:  func(tier string) int { return map[string]int{"quick": 32, "thorough": 200}[tier] },
+		Cases:  func(tier string) int { return map[string]int{"quick": 48, "thorough": 200}[tier] },
 		Run:    func(c *vc.Ctx, i int) { c03History(c, i) },
 	})
 }
